@@ -9,7 +9,9 @@ ALL = ["C%02d" % i for i in range(1, 21)]
 
 BASELINE_OFF = ("rm -rf /tmp/phosg_baseline_off && cmake -G Ninja -S /repo -B /tmp/phosg_baseline_off >/dev/null && "
                 "cmake --build /tmp/phosg_baseline_off -j16 >/dev/null && "
-                "ctest --test-dir /tmp/phosg_baseline_off -j8 --timeout 900; rc=$?; rm -rf /tmp/phosg_baseline_off; exit $rc")
+                "{ U=''; unshare --pid --fork --mount-proc true 2>/dev/null && U='unshare --pid --fork --mount-proc'; "
+                "$U ctest --test-dir /tmp/phosg_baseline_off -j8 --timeout 900; rc=$?; }; "
+                "rm -rf /tmp/phosg_baseline_off; exit $rc")
 
 
 def main():
